@@ -567,6 +567,13 @@ func (w *world) everyResponse(method, path string, r *resp) {
 	}
 }
 
+func absDur(d time.Duration) time.Duration {
+	if d < 0 {
+		return -d
+	}
+	return d
+}
+
 func trunc(b []byte, n int) string {
 	if len(b) > n {
 		return string(b[:n]) + "..."
@@ -1118,6 +1125,21 @@ func (w *world) session(sim *simrt.Sim, first bool) {
 	}
 	w.out.Probes["listen"]++
 	w.log = nil
+	// nothing may hang: the clients finish and the command returns within the time the plan itself asks for, plus a margin
+	budget := 10 * time.Minute
+	for _, ops := range p.Clients {
+		for _, op := range ops {
+			budget += 2 * time.Duration(op.Ms) * time.Millisecond
+			if op.K == "gcprobe" {
+				budget += 2*absDur(w.set.gcFreq) + absDur(w.set.gcGrace) + time.Minute
+			}
+		}
+	}
+	wdAll := simrt.AfterFunc(budget, func() {
+		w.viol("hang", "clients or serve stuck", fmt.Sprintf("%s after the server started listening the run has not finished (served=%v):\n%s", budget, served, strings.Join(sim.Dump(), "\n")))
+		sim.Abort("liveness: run does not finish")
+	})
+	defer wdAll.Stop()
 	var cwg simrt.WaitGroup
 	killed := false
 	kill := func() {
